@@ -76,6 +76,7 @@ def doOp (cfg : Config) (s : MState) (live : List Info) (tok : String) : Option 
   | ["h", f, b] => do
     let f ← f.toNat?
     pure (setHidden s f (b == "1"), specStep cfg live (.hide f (b == "1")), "h")
+  | ["x"] => pure (Module.clear s, specStep cfg live .clear, "x")
   | ["q", q] => do
     let q ← Drv.unhex q
     pure (s, live, s!"q={showInfo (find cfg s q)}")
